@@ -41,7 +41,7 @@ func c18Loop(m *vk.M, idx *int, n int, body func(i, procs int) bool) bool {
 	return true
 }
 
-const c18RuleFlight = "seeded concurrent histories (2-64 goroutines, 1-3 keys, random yields/spins/sleeps in and around callbacks, GOMAXPROCS 1/2/4/16): SingleFlight (executions of a key never overlap; every result is that of an execution performed by an overlapping call; DoEx fresh <=> executed), LockedCalls (every call executes exactly once, own result, executions of a key never overlap), ResourceManager (<=1 resource per key, same instance for all callers, Close closes each exactly once), ManagedResource (generate never concurrent; a resource marked broken is never returned by a later Take; a resource is replaced only after MarkBroken was called with that very resource — random scripts plus lock-step rounds of MarkBroken(held)+Take from 2-8 goroutines); half of the scenarios contain panicking callbacks / create / generate functions recovered by the calling goroutine (waiters of a panicked flight return, later calls execute afresh; a locked call still parked 25 s after a panicked predecessor of its key returned is a violation); non-trivial = a call was served by another call's execution / same-key calls overlapped / a Get was served without creating / a regeneration happened"
+const c18RuleFlight = "seeded concurrent histories (2-64 goroutines, 1-3 keys, random yields/spins/sleeps in and around callbacks, GOMAXPROCS 1/2/4/16): SingleFlight (executions of a key never overlap; every result is that of an execution performed by an overlapping call; DoEx fresh <=> executed), LockedCalls (every call executes exactly once, own result, executions of a key never overlap), ResourceManager (<=1 resource per key, same instance for all callers, Close closes each exactly once), ManagedResource (generate never concurrent; a resource marked broken is never returned by a later Take; a resource is replaced only after MarkBroken was called with that very resource — random scripts plus lock-step rounds of MarkBroken(held)+Take from 2-8 goroutines); two-instance gated schedules (a call of instance A parked inside its callback while an independent instance B is called with the same key: B runs its own callbacks, returns its own results, ResourceManager B creates and closes only its own resource); half of the scenarios contain panicking callbacks / create / generate functions recovered by the calling goroutine (waiters of a panicked flight return, later calls execute afresh; a locked call still parked 25 s after a panicked predecessor of its key returned is a violation); non-trivial = a call was served by another call's execution / same-key calls overlapped / a Get was served without creating / a regeneration happened"
 
 func c18Flight(t *testing.T, race bool) {
 	m := vk.New(t, "C18", c18RuleFlight)
@@ -73,13 +73,17 @@ func c18Flight(t *testing.T, race bool) {
 			sc.Rounds = 40 + sc.Rounds/4
 		}
 		return !m.Only(i) || c18RunMR(m, i, sc)
+	}) && c18Loop(m, &idx, c18N(240, 3600, race), func(i, procs int) bool {
+		sc := c18GenIso(r)
+		sc.Procs = procs
+		return !m.Only(i) || c18RunIso(m, i, sc)
 	})
 	if !ok {
 		m.Note("stopped early after a watchdog fired")
 	}
 }
 
-const c18RuleLimit = "seeded concurrent histories of Borrow/TryBorrow/Return on Limit and TimeoutLimit (n 1-3, 2-6 free-form clients incl. stray Returns, <=70 ops) checked with porcupine against the outstanding-counter specification (completed Borrow only where outstanding<n, TryBorrow refused only when full, Return an error exactly when nothing is outstanding, ErrTimeout legal anywhere); balanced workloads (up to 64 goroutines) additionally by a caller-side outstanding gauge <= n and an exact capacity probe at quiescence; ErrTimeout never earlier than timeout-2ms at the caller; non-trivial = a TryBorrow/Return was refused or a timeout fired"
+const c18RuleLimit = "seeded concurrent histories of Borrow/TryBorrow/Return on Limit and TimeoutLimit (n 1-3, 2-6 free-form clients incl. stray Returns, <=70 ops) checked with porcupine against the outstanding-counter specification (completed Borrow only where outstanding<n, TryBorrow refused only when full, Return an error exactly when nothing is outstanding, ErrTimeout legal anywhere); balanced workloads (up to 64 goroutines) additionally by a caller-side outstanding gauge <= n and an exact capacity probe at quiescence; ErrTimeout never earlier than timeout-2ms at the caller; lock-step rounds of 2-6 goroutines returning concurrently for 1..n outstanding borrows (exactly that many Returns succeed, none blocks: a goroutine parked in Limit.Return after 25 s is a violation); non-trivial = a TryBorrow/Return was refused or a timeout fired"
 
 func c18Limit(t *testing.T, race bool) {
 	m := vk.New(t, "C18", c18RuleLimit)
@@ -100,6 +104,13 @@ func c18Limit(t *testing.T, race bool) {
 		sc := c18GenLimitContention(r)
 		sc.Procs = procs
 		return !m.Only(i) || c18RunLimit(m, i, sc)
+	}) && c18Loop(m, &idx, c18N(60, 900, race), func(i, procs int) bool {
+		sc := c18GenDbl(r)
+		sc.Procs = procs
+		if race && sc.Rounds > 20 { // spinning barriers are slow under the race detector
+			sc.Rounds = 20 + sc.Rounds/4
+		}
+		return !m.Only(i) || c18RunDbl(m, i, sc)
 	})
 	if !ok {
 		m.Note("stopped early after a watchdog fired")
